@@ -160,6 +160,8 @@ let run line =
   | "DY" -> fuelled (Option.map (function None -> "NONE" | Some x -> string_of_int (int_of_n x)) (decon_sym f n (term t)))
   | "DX" -> fuelled (Option.map (function None -> "NONE" | Some (x, q) -> string_of_int (int_of_n x) ^ " " ^ show q) (decon_ex f n (term t)))
   | "DM" -> fuelled (Option.map (function None -> "NONE" | Some (x, q) -> string_of_int (int_of_n x) ^ " " ^ show q) (decon_mu f n (term t)))
+  | "UW" | "UE" -> let c = num t in let p = term t in
+      fuelled (Option.map (function None -> (if op = "UW" then "NONE" else "RAISE") | Some l -> tuple l) (unwrap_cls f n c p))
   | "DN" -> fuelled (Option.map (fun (h, args) -> "H " ^ show h ^ " " ^ tuple args) (decon_nary f n (term t)))
   | "DNP" -> let a = term t in let b = term t in
       let one p = fuelled (Option.map (fun (h, args) -> "H " ^ show h ^ " " ^ tuple args) (decon_nary f n p)) in
